@@ -1,9 +1,201 @@
-(** C12 - property theorems (statements only; proofs are in C12/Proofs.v). *)
-From Coq Require Import List NArith Reals.
-From LinfaVerif Require Import Common.Num C12.Model C12.Proofs.
+(** C12 - property theorems (statements only; proofs are in C12/Proofs.v).
+
+    Reading guide.  [bin_loss], [multi_loss], [glm_loss] (C12/Model.v) are the documented
+    objectives over the reals: L2-penalised negative log-likelihoods (penalty on the weights, not
+    on the intercept) and 1/2 (deviance + alpha |w|^2).  [bin_ok], [multi_ok], [glm_ok]
+    (C12/Checker.v) are the decidable checkers every run evaluates on the parameters returned by
+    the implementation; [tauR tol] = tol (1 + 2^-10).  [rmat], [rvec], [f64_R] give the exact real
+    values of the float data. *)
+From Coq Require Import List NArith QArith Reals Floats.
+From Coquelicot Require Import Coquelicot.
+From LinfaVerif Require Import Common.Num Common.QF C12.Model C12.Checker C12.Proofs.
 Import ListNotations.
 Local Open Scope R_scope.
 
-(** the binary model's probability 1/(1+exp(-z)) lies strictly between 0 and 1 for every linear predictor *)
-Theorem logistic_in_unit : forall z : R, 0 < 1 / (1 + exp (- z)) < 1.
-Proof. exact logistic_unit. Qed.
+(** ** T1: the closed-form gradients are the partial derivatives of the documented objectives *)
+
+(** binary logistic regression, labels y_i in R (the code uses -1 / +1) *)
+Theorem grad_formula_binary : forall alpha (X : list (list R)) (y w : list R) (b : R),
+  (forall x, In x X -> length x = length w) ->
+  (forall j, (j < length w)%nat ->
+     is_derive (fun t => bin_loss alpha X y (set_nth w j t) b) (nth j w 0) (bin_grad_w (2 * (alpha / 2)) X y w b j)) /\
+  is_derive (fun t => bin_loss alpha X y w t) b (bin_grad_b X y w b).
+Proof.
+  intros alpha X y w b Hdim. split.
+  - intros j Hj. apply glin_obj_derive_w; auto. intros; apply bin_ell_derive.
+  - apply glin_obj_derive_b. intros; apply bin_ell_derive.
+Qed.
+
+(** multinomial logistic regression: W is d x k (list of rows), b has k entries, y_i is a class index *)
+Theorem grad_formula_multi : forall k alpha (X : list (list R)) (y : list nat) (W : list (list R)) (b : list R),
+  (forall x, In x X -> length x = length W) ->
+  (forall row, In row W -> length row = k) -> length b = k ->
+  (forall j c, (j < length W)%nat -> (c < k)%nat ->
+     is_derive (fun t => multi_loss k alpha X y (set_nth2 W j c t) b) (nth c (nth j W []) 0)
+               (multi_grad_W k alpha X y W b j c)) /\
+  (forall c, (c < k)%nat ->
+     is_derive (fun t => multi_loss k alpha X y W (set_nth b c t)) (nth c b 0) (multi_grad_b k X y W b c)).
+Proof.
+  intros k alpha X y W b Hdim HW Hb. split.
+  - intros j c Hj Hc. apply multi_loss_derive_W; auto.
+    exact (eq_ind_r (fun n => (c < n)%nat) Hc (HW (nth j W []) (nth_In _ _ Hj))).
+  - intros c Hc. apply multi_loss_derive_b; [exact Hc|exact (eq_ind_r (fun n => (c < n)%nat) Hc Hb)].
+Qed.
+
+(** Tweedie GLM: for the Normal (p = 0), Poisson (p = 1), Gamma (p = 2) and general (compound
+    Poisson-Gamma 1 < p < 2, inverse Gaussian p = 3, ...) unit deviances, with targets in the
+    support and a link with positive means (log, logit; any link for p = 0) *)
+Theorem grad_formula_glm : forall (p : Q) l dev alpha (X : list (list R)) (y w : list R) (b : R),
+  glm_family_ok p l dev -> glm_targets_ok p y ->
+  (forall x, In x X -> length x = length w) ->
+  (forall j, (j < length w)%nat ->
+     is_derive (fun t => glm_loss dev l alpha X y (set_nth w j t) b) (nth j w 0)
+               (glm_grad_w (ddev_of p) l (2 * (alpha / 2)) X y w b j)) /\
+  is_derive (fun t => glm_loss dev l alpha X y w t) b (glm_grad_b (ddev_of p) l X y w b).
+Proof.
+  intros p l dev alpha X y w b Hf Hy Hdim.
+  assert (Hd : forall x yi, In (x, yi) (combine X y) ->
+               is_derive (glm_ell dev l yi) (lin x w b) (glm_phi (ddev_of p) l yi (lin x w b))).
+  { intros x yi Hin. apply glm_sample_derive; [exact Hf|].
+    apply in_combine_r in Hin. destruct Hy as [E|[[E Q]|[E Q]]]; auto. }
+  split.
+  - intros j Hj. apply glin_obj_derive_w; auto.
+  - apply glin_obj_derive_b. exact Hd.
+Qed.
+
+(** the four unit deviances have derivative -2 (y - mu) / mu^p in mu *)
+Theorem unit_deviance_derivatives : forall y mu,
+  is_derive (dev_normal y) mu (dev_deriv_normal y mu) /\
+  (0 <= y -> 0 < mu -> is_derive (dev_poisson y) mu (dev_deriv 1 y mu)) /\
+  (0 < y -> 0 < mu -> is_derive (dev_gamma y) mu (dev_deriv 2 y mu)) /\
+  (forall p, p <> 1 -> p <> 2 -> 0 < mu -> is_derive (dev_general p y) mu (dev_deriv p y mu)).
+Proof.
+  intros y mu. split; [|split; [|split]].
+  - apply dev_normal_derive.
+  - apply dev_poisson_derive.
+  - apply dev_gamma_derive.
+  - intros p. apply dev_general_derive.
+Qed.
+
+(** ** T1: soundness of the stationarity checkers (pattern B: evaluated on every fitted model) *)
+
+(** binary: when [bin_ok] accepts the returned (w, b), every partial derivative of the documented
+    objective exists, equals the closed form, and the gradient is at most tol (1 + 2^-10) in
+    Euclidean norm - hence in every component.  (Without a fitted intercept the checker also
+    insists that b = 0 and the last conjunct ranges over the weights only.) *)
+Theorem binary_stationary_ok_sound : forall alpha icpt X t w b tol,
+  bin_ok alpha icpt X t w b tol = true ->
+  (forall x, In x (rmat X) -> length x = length (rvec w)) ->
+  let L := bin_loss (f64_R alpha) (rmat X) (map sign_R t) in
+  let g := glin_grad bin_phi (f64_R alpha) icpt (rmat X) (map sign_R t) (rvec w) (f64_R b) in
+  (forall j, (j < length (rvec w))%nat ->
+     is_derive (fun s => L (set_nth (rvec w) j s) (f64_R b)) (nth j (rvec w) 0)
+               (bin_grad_w (f64_R alpha) (rmat X) (map sign_R t) (rvec w) (f64_R b) j)) /\
+  is_derive (fun s => L (rvec w) s) (f64_R b) (bin_grad_b (rmat X) (map sign_R t) (rvec w) (f64_R b)) /\
+  Rsum (map Rsqr g) <= tauR tol * tauR tol /\
+  (forall gj, In gj g -> Rabs gj <= tauR tol).
+Proof. exact binary_certified. Qed.
+
+Theorem multi_stationary_ok_sound : forall k alpha icpt X y W b tol,
+  multi_ok k alpha icpt X y W b tol = true ->
+  (forall x, In x (rmat X) -> length x = length (rmat W)) ->
+  let L := multi_loss k (f64_R alpha) (rmat X) y in
+  let g := multi_grad k (f64_R alpha) icpt (rmat X) y (rmat W) (rvec b) in
+  (forall j c, (j < length (rmat W))%nat -> (c < k)%nat ->
+     is_derive (fun s => L (set_nth2 (rmat W) j c s) (rvec b)) (nth c (nth j (rmat W) []) 0)
+               (multi_grad_W k (f64_R alpha) (rmat X) y (rmat W) (rvec b) j c)) /\
+  (forall c, (c < k)%nat ->
+     is_derive (fun s => L (rmat W) (set_nth (rvec b) c s)) (nth c (rvec b) 0)
+               (multi_grad_b k (rmat X) y (rmat W) (rvec b) c)) /\
+  Rsum (map Rsqr g) <= tauR tol * tauR tol /\
+  (forall gj, In gj g -> Rabs gj <= tauR tol).
+Proof. exact multi_certified. Qed.
+
+Theorem glm_stationary_ok_sound : forall p l dev alpha icpt X y w b tol,
+  glm_ok p l alpha icpt X y w b tol = true ->
+  glm_family_ok (f64_Q p) l dev -> glm_targets_ok (f64_Q p) (rvec y) ->
+  (forall x, In x (rmat X) -> length x = length (rvec w)) ->
+  let L := glm_loss dev l (f64_R alpha) (rmat X) (rvec y) in
+  let g := glin_grad (glm_phi (ddev_of (f64_Q p)) l) (f64_R alpha) icpt (rmat X) (rvec y) (rvec w) (f64_R b) in
+  (forall j, (j < length (rvec w))%nat ->
+     is_derive (fun s => L (set_nth (rvec w) j s) (f64_R b)) (nth j (rvec w) 0)
+               (glm_grad_w (ddev_of (f64_Q p)) l (f64_R alpha) (rmat X) (rvec y) (rvec w) (f64_R b) j)) /\
+  is_derive (fun s => L (rvec w) s) (f64_R b) (glm_grad_b (ddev_of (f64_Q p)) l (rmat X) (rvec y) (rvec w) (f64_R b)) /\
+  Rsum (map Rsqr g) <= tauR tol * tauR tol /\
+  (forall gj, In gj g -> Rabs gj <= tauR tol).
+Proof. exact glm_certified. Qed.
+
+(** ** Label coding (pattern A) *)
+
+(** binary: exactly two classes are accepted; the positive class is the more frequent one, on equal
+    counts the one seen first; the +1/-1 target marks membership in the positive class; one class
+    is rejected as too few, three pairwise distinct ones as too many *)
+Theorem label_coding_spec : forall (C : Type) (ceqb : C -> C -> bool),
+  (forall a b, ceqb a b = true <-> a = b) ->
+  forall y : list C, bin_coding_spec ceqb y (label_classes ceqb y).
+Proof. exact (@label_classes_spec). Qed.
+
+(** multinomial: the class list is strictly increasing (hence duplicate free), holds exactly the
+    labels that occur, and every sample is coded by the position of its label *)
+Theorem multi_label_coding_spec : forall (C : Type) (ceqb cltb : C -> C -> bool),
+  (forall a b, ceqb a b = true <-> a = b) ->
+  (forall a, cltb a a = false) ->
+  (forall a b c, cltb a b = true -> cltb b c = true -> cltb a c = true) ->
+  (forall a b, a <> b -> cltb a b = true \/ cltb b a = true) ->
+  forall y : list C,
+  let (cl, idx) := label_classes_multi ceqb cltb y in
+  ssorted cltb cl /\ NoDup cl /\ (forall c, In c cl <-> In c y) /\
+  Forall2 (fun yi oi => exists i, oi = Some i /\ nth_error cl i = Some yi) y idx.
+Proof. intros C ceqb cltb H1 H2 H3 H4 y. apply label_classes_multi_spec; assumption. Qed.
+
+(** ** Decisions and probabilities (pattern A, real-number instance of the executable models) *)
+
+(** the binary prediction is the positive class exactly when probability >= threshold *)
+Theorem decision_matches_probability : forall (C : Type) (pos neg : C) (thr p : R),
+  (thr <= p -> bin_decide R_ops pos neg thr p = pos) /\ (p < thr -> bin_decide R_ops pos neg thr p = neg).
+Proof. exact (@bin_decide_spec). Qed.
+
+(** the multinomial prediction is the first class holding the largest score *)
+Theorem multi_decision_is_first_argmax : forall (v : list R) i, argmax_first R_ops v = Some i ->
+  (i < length v)%nat /\ (forall j, (j < length v)%nat -> nth j v 0 <= nth i v 0) /\
+  (forall j, (j < i)%nat -> nth j v 0 < nth i v 0).
+Proof. exact argmax_first_spec. Qed.
+
+(** the binary probability is the logistic function of the linear predictor and lies in (0,1) *)
+Theorem logistic_in_unit : forall z : R,
+  logistic_of_exp R_ops (exp (neg_arg R_ops z)) = 1 / (1 + exp (- z)) /\ 0 < 1 / (1 + exp (- z)) < 1.
+Proof. intros z. split; [apply logistic_of_exp_R|apply logistic_unit]. Qed.
+
+(** softmax probabilities lie in (0,1] and sum to one *)
+Theorem softmax_in_unit : forall (s : list R) c, (c < length s)%nat -> 0 < softmax s c <= 1.
+Proof. exact softmax_unit. Qed.
+Theorem softmax_sums_to_one : forall s : list R, s <> [] -> Rsum (map (softmax s) (seq 0 (length s))) = 1.
+Proof. exact softmax_sum. Qed.
+
+(** the executable normalisation (ndarray's unrolled sum, then division) applied to any positive
+    exponentials yields probabilities in (0,1] that sum to one *)
+Theorem executable_softmax_normalises : forall es : list R,
+  (forall e, In e es -> 0 < e) -> es <> [] ->
+  Rsum (softmax_of_exps R_ops es) = 1 /\ (forall p, In p (softmax_of_exps R_ops es) -> 0 < p <= 1).
+Proof. exact softmax_of_exps_R. Qed.
+
+(** ** Tweedie supports: which powers are valid and which targets are accepted *)
+Theorem in_range_iff : forall (p : R) (y : list R),
+  match tweedie_support R_ops p with
+  | SupAll => p <= 0 /\ in_range R_ops SupAll y = true
+  | SupInvalid => 0 < p < 1 /\ in_range R_ops SupInvalid y = false
+  | SupNonNeg => 1 <= p < 2 /\ (in_range R_ops SupNonNeg y = true <-> forall v, In v y -> 0 <= v)
+  | SupPos => 2 <= p /\ (in_range R_ops SupPos y = true <-> forall v, In v y -> 0 < v)
+  end.
+Proof.
+  intros p y. pose proof (tweedie_support_spec p) as H.
+  destruct (tweedie_support R_ops p); split; try exact H; try reflexivity; apply in_range_spec.
+Qed.
+
+(** ** T2: for the (convex) binary objective, stationarity up to tau is optimality up to tau |theta' - theta|_1 *)
+Theorem logistic_convex_optimal : forall alpha (X : list (list R)) (y w : list R) (b : R) (w' : list R) (b' tau : R),
+  0 <= alpha -> 0 <= tau -> length w' = length w -> (forall x, In x X -> length x = length w) ->
+  (forall j, (j < length w)%nat -> Rabs (bin_grad_w alpha X y w b j) <= tau) ->
+  Rabs (bin_grad_b X y w b) <= tau ->
+  bin_loss alpha X y w b - tau * (l1norm (vsub w' w) + Rabs (b' - b)) <= bin_loss alpha X y w' b'.
+Proof. exact logistic_convex_optimal_lemma. Qed.
